@@ -1,4 +1,4 @@
-package types_c50
+package types
 
 // C50 — access modifiers and constant fields are enforced by the checker.
 //
